@@ -40,6 +40,9 @@ namespace randomx {
 
 	template<class Allocator, bool softAes>
 	class InterpretedVm : public VmBase<Allocator, softAes>, public BytecodeMachine {
+#ifdef RANDOMX_VERIF
+		friend struct randomx_verif::Access;
+#endif
 	public:
 		using VmBase<Allocator, softAes>::mem;
 		using VmBase<Allocator, softAes>::scratchpad;
